@@ -1075,6 +1075,13 @@ type dreq =
 | RInt
 | RBool
 | RStr
+| RSub
+
+(** val adds_dim : dreq -> bool **)
+
+let adds_dim = function
+| RSub -> true
+| _ -> false
 
 type seqkind =
 | KList
@@ -1291,6 +1298,13 @@ let set_strict s b =
     adict = s.adict; strict = b; kind = s.kind; names = s.names; dflt =
     s.dflt }
 
+(** val set_kind : state -> ckind -> state **)
+
+let set_kind s k =
+  { span = s.span; index = s.index; vars = s.vars; registry = s.registry;
+    adict = s.adict; strict = s.strict; kind = k; names = s.names; dflt =
+    s.dflt }
+
 (** val set_names : state -> char list list -> state **)
 
 let set_names s n0 =
@@ -1330,13 +1344,22 @@ let underscored = function
 let bookkeeping k name =
   (||)
     ((||)
-      ((||) (eqb0 name ('s'::('p'::('a'::('n'::[])))))
-        (eqb0 name ('i'::('n'::('d'::('e'::('x'::[]))))))) (underscored name))
+      ((||)
+        ((||) (eqb0 name ('s'::('p'::('a'::('n'::[])))))
+          (eqb0 name ('i'::('n'::('d'::('e'::('x'::[])))))))
+        (underscored name))
+      (match k with
+       | CVC -> false
+       | _ ->
+         (||) (eqb0 name ('n'::('a'::('m'::('e'::('s'::[]))))))
+           (eqb0 name ('d'::('t'::('y'::('p'::('e'::[]))))))))
     (match k with
-     | CVC -> false
-     | _ ->
-       (||) (eqb0 name ('n'::('a'::('m'::('e'::('s'::[]))))))
-         (eqb0 name ('d'::('t'::('y'::('p'::('e'::[])))))))
+     | CLinker _ ->
+       (||)
+         (eqb0 name
+           ('s'::('u'::('b'::('m'::('o'::('d'::('e'::('l'::('s'::[]))))))))))
+         (eqb0 name ('n'::('a'::('m'::('e'::[])))))
+     | _ -> false)
 
 (** val as_int_list : operand -> z list option **)
 
@@ -1381,7 +1404,11 @@ let as_dreq = function
           then Some RInt
           else if eqb0 x ('b'::('o'::('o'::('l'::[]))))
                then Some RBool
-               else if eqb0 x ('s'::('t'::('r'::[]))) then Some RStr else None
+               else if eqb0 x ('s'::('t'::('r'::[])))
+                    then Some RStr
+                    else if eqb0 x ('2'::('f'::('8'::[])))
+                         then Some RSub
+                         else None
    | _ -> None)
 | _ -> None
 
@@ -1953,16 +1980,39 @@ let book_setattr name value s =
                            (set_adict (set_dflt s (Some d))
                              (assoc_set name value s.adict))
                        | None -> err s OtherError)
-                 else if (||)
-                           (eqb0 name
-                             ('_'::('a'::('t'::('t'::('r'::('i'::('b'::('u'::('t'::('e'::('s'::[]))))))))))))
-                           (eqb0 name
-                             ('_'::('s'::('t'::('r'::('i'::('c'::('t'::[]))))))))
-                      then err s OtherError
-                      else (match assoc (tail_of name) s.vars with
-                            | Some _ -> err s OtherError
-                            | None ->
-                              ok (set_adict s (assoc_set name value s.adict)))
+                 else if eqb0 name
+                           ('s'::('u'::('b'::('m'::('o'::('d'::('e'::('l'::('s'::[])))))))))
+                      then (match value with
+                            | OSeq (_, items) ->
+                              (match items with
+                               | [] ->
+                                 (match s.kind with
+                                  | CLinker _ -> ok (set_kind s (CLinker O))
+                                  | _ -> err s OtherError)
+                               | _ :: _ -> err s OtherError)
+                            | _ -> err s OtherError)
+                      else if eqb0 name ('n'::('a'::('m'::('e'::[]))))
+                           then err s OtherError
+                           else if (||)
+                                     (eqb0 name
+                                       ('_'::('a'::('t'::('t'::('r'::('i'::('b'::('u'::('t'::('e'::('s'::[]))))))))))))
+                                     (eqb0 name
+                                       ('_'::('s'::('t'::('r'::('i'::('c'::('t'::[]))))))))
+                                then err s OtherError
+                                else (match assoc (tail_of name) s.vars with
+                                      | Some _ ->
+                                        (match value with
+                                         | OArr (sh, dt, cells) ->
+                                           ok
+                                             (set_vars s
+                                               (assoc_set (tail_of name)
+                                                 { vdtype = dt; vshape = sh;
+                                                 vdata = cells } s.vars))
+                                         | _ -> err s OtherError)
+                                      | None ->
+                                        ok
+                                          (set_adict s
+                                            (assoc_set name value s.adict)))
 
 (** val obj_setattr :
     (dtype -> pyval -> pyval outcome) -> (dtype -> dtype -> pyval -> pyval
@@ -2168,7 +2218,10 @@ let base_add_variable pycast arrcast infer astype_dt name value dt s =
                            | Some r ->
                              let d1 = astype_dt d0 cells0 r in
                              (match cast_all (arrcast d0 d1) cells0 with
-                              | Ret cs -> Ret (d1, cs)
+                              | Ret cs ->
+                                if adds_dim r
+                                then Raise DimensionError
+                                else Ret (d1, cs)
                               | Raise e -> Raise e)
                            | None -> Ret (d0, cells0) with
                      | Ret a1 ->
@@ -2194,7 +2247,10 @@ let base_add_variable pycast arrcast infer astype_dt name value dt s =
                               | Some r ->
                                 let d1 = astype_dt d0 cells0 r in
                                 (match cast_all (arrcast d0 d1) cells0 with
-                                 | Ret cs0 -> Ret (d1, cs0)
+                                 | Ret cs0 ->
+                                   if adds_dim r
+                                   then Raise DimensionError
+                                   else Ret (d1, cs0)
                                  | Raise e -> Raise e)
                               | None -> Ret (d0, cells0) with
                         | Ret a1 ->
@@ -2302,7 +2358,8 @@ let dreq_operand d =
      | RFloat -> 'f'::('l'::('o'::('a'::('t'::[]))))
      | RInt -> 'i'::('n'::('t'::[]))
      | RBool -> 'b'::('o'::('o'::('l'::[])))
-     | RStr -> 's'::('t'::('r'::[]))))
+     | RStr -> 's'::('t'::('r'::[]))
+     | RSub -> '2'::('f'::('8'::[]))))
 
 (** val init_vars :
     (dtype -> pyval -> pyval outcome) -> (dtype -> dtype -> pyval -> pyval
@@ -2528,7 +2585,6 @@ let np_infer cs =
 (** val np_astype_dt : dtype -> pyval list -> dreq -> dtype **)
 
 let np_astype_dt src cells = function
-| RFloat -> DFloat
 | RInt -> DInt
 | RBool -> DBool
 | RStr ->
@@ -2545,6 +2601,7 @@ let np_astype_dt src cells = function
      DStr
        (fold_right (fun v acc -> Nat.max (length0 (str_of_val v)) acc) (S O)
          cells))
+| _ -> DFloat
 
 (** val np_itemseq_exn : dtype -> exn **)
 
